@@ -383,7 +383,65 @@ Section Model.
     | a :: b :: r => if byte_eqb a x2d && byte_eqb b x2b then a :: r else s
     | _ => s
     end.
-  Definition float_text (s : list byte) : list byte := if double_sign_run_ok then sign_norm s else s.
+  (* double-exponent-form: the exponent of a double constant is an IDL integer constant (IntConstant::parse): a run of `-` signs,
+     then decimal or 0x hexadecimal digits; its value is the digits' value, negated when the number of signs is odd.  An exponent
+     with more than one sign or with hexadecimal digits is rewritten as `e`, one sign at most, the decimal digits of the value
+     (1.5e--3 = 1.5e3, 1e---2 = 1e-2, 1e0x10 = 1e16); every other text is left as it is *)
+  Definition is_exp_mark (c : byte) : bool := byte_eqb c x65 || byte_eqb c x45.
+  Fixpoint split_exp (s : list byte) : option (list byte * list byte) :=
+    match s with
+    | [] => None
+    | c :: r => if is_exp_mark c then Some ([], r)
+                else match split_exp r with Some (m, x) => Some (c :: m, x) | None => None end
+    end.
+  Fixpoint strip_minus (s : list byte) : nat * list byte :=
+    match s with
+    | c :: r => if byte_eqb c x2d then (let (k, d) := strip_minus r in (Datatypes.S k, d)) else (O, s)
+    | [] => (O, s)
+    end.
+  Definition digit_val (hex : bool) (c : byte) : option N :=
+    let n := Byte.to_N c in
+    if (48 <=? n)%N && (n <=? 57)%N then Some (n - 48)%N
+    else if hex && (97 <=? n)%N && (n <=? 102)%N then Some (n - 87)%N
+    else if hex && (65 <=? n)%N && (n <=? 70)%N then Some (n - 55)%N
+    else None.
+  Fixpoint digits_val (hex : bool) (acc : N) (s : list byte) : option N :=
+    match s with
+    | [] => Some acc
+    | c :: r => match digit_val hex c with
+                | Some d => digits_val hex (acc * (if hex then 16 else 10) + d)%N r
+                | None => None
+                end
+    end.
+  Fixpoint dec_text_go (fuel : nat) (n : N) (acc : list byte) : list byte :=
+    match fuel with
+    | O => acc
+    | Datatypes.S f =>
+        let d := match Byte.of_N (48 + n mod 10)%N with Some b => b | None => x30 end in
+        if (n <? 10)%N then d :: acc else dec_text_go f (n / 10)%N (d :: acc)
+    end.
+  Definition dec_text (n : N) : list byte := dec_text_go 40 n [].
+  Definition exp_norm (s : list byte) : list byte :=
+    match split_exp s with
+    | Some (m, x) =>
+        let (k, d) := strip_minus x in
+        let hex := match d with a :: b :: h => if byte_eqb a x30 && byte_eqb b x78 then Some h else None | _ => None end in
+        if Nat.ltb 1 k || (match hex with Some _ => true | None => false end) then
+          match (match hex with Some h => digits_val true 0 h | None => digits_val false 0 d end) with
+          | Some n => if (n <? 9223372036854775808)%N then m ++ x65 :: (if Nat.odd k then [x2d] else []) ++ dec_text n
+                      else s      (* not an i64: IntConstant::parse does not accept it *)
+          | None => s
+          end
+        else s
+    | None => s
+    end.
+  (* parse_double: the exponent first, then the sign run; each step only where its repair is in the source *)
+  Definition float_text (s : list byte) : list byte :=
+    let s1 := if double_exponent_ok then exp_norm s else s in
+    if double_sign_run_ok then sign_norm s1 else s1.
+  (* the text is one f64::from_str is given as the grammar's meaning intends (no rewriting needed, or the rewriting is there) *)
+  Definition float_exp_plain (s : list byte) : bool := double_exponent_ok || bytes_eqb s (exp_norm s).
+  Definition float_sign_plain (s : list byte) : bool := double_sign_run_ok || bytes_eqb (exp_norm s) (sign_norm (exp_norm s)).
   (* container-const-reference: CodegenTy of a const of list / set / map type *)
   Definition is_container_c (ty : cty) : bool := match ty with CArray _ | CLazyStaticRef _ => true | _ => false end.
 
